@@ -143,7 +143,7 @@ Definition dep_of (ds : list directive) : dep :=
     match sp_arg #"reason" d with
     | None => Dep (Some default_reason_text)
     | Some (VStr raw blk) => match str_sem raw blk with Some s => Dep (Some s) | None => DepBad end
-    | Some VNull => Dep None
+    | Some VNull => Dep (Some default_reason_text)   (* a null reason counts as absent *)
     | Some _ => DepBad
     end
   end.
@@ -535,25 +535,20 @@ Definition is_kind (k : type_kind) (t : type_def) : bool := kind_eqb (td_kind t)
 Definition has_object_named (n : name) (S : schema) : bool :=
   existsb (fun t => is_kind KObject t && bytes_eqb (td_name t) n) (s_types S).
 
-(* what the converter cannot represent *)
+(* what the converter cannot represent.  (interface-implements, repeatable, inputvalue-deprecated and
+   specified-by were here until the converter was repaired; see ModelV0.v and the historical
+   *_refuted theorems) *)
 Definition convert_lossy (S : schema) : list name :=
-  (if existsb (fun t => is_kind KInterface t && negb (is_nil (td_implements t))) (s_types S) then [#"interface-implements"] else [])
-  ++ (if existsb dd_repeatable (s_directives S) then [#"repeatable"] else [])
-  ++ (if existsb (fun iv => match sp_dir #"deprecated" (iv_dirs iv) with Some _ => true | None => false end) (all_input_values S)
-      then [#"inputvalue-deprecated"] else [])
-  ++ (if existsb (fun t => match sp_dir #"specifiedBy" (td_dirs t) with Some _ => true | None => false end) (s_types S)
-      then [#"specified-by"] else [])
-  ++ (if existsb (fun t => one_of (td_dirs t)) (s_types S) then [#"one-of"] else []).
-(* what the generator (or the merge before it) gets wrong *)
+  (if existsb (fun t => one_of (td_dirs t)) (s_types S) then [#"one-of"] else []).
+(* what the generator (or the merge before it) gets wrong.  (reason-null and name-collision were here
+   until the generator was repaired) *)
 Definition generate_lossy (S : schema) : list name :=
   (if existsb (fun ds => str_special (reason_of ds)) (all_deprecable_dirs S)
       || existsb (fun t => str_special (url_of (td_dirs t))) (s_types S) then [#"string-escapes"] else [])
-  ++ (if existsb (fun ds => match reason_of ds with Some VNull => true | _ => false end) (all_deprecable_dirs S)
-      then [#"reason-null"] else [])
   ++ (if existsb (fun iv => match iv_default iv with Some v => negb (value_ok v) | None => false end) (all_input_values S)
       then [#"block-string-reprint"] else [])
-  ++ (if existsb (fun t => bytes_eqb (td_name t) #"schema" || mem_bytes (td_name t) (map dd_name (s_directives S))) (s_types S)
-      then [#"name-collision"] else [])
+  ++ (if bytes_eqb (s_query S) #"schema" || mem_bytes (s_query S) (map dd_name (s_directives S))
+      then [#"query-name-collision"] else [])   (* asttransform.findQueryNode takes the first node of any kind: not modelled *)
   ++ (if existsb (fun t => mem_bytes (td_name t) base_scalar_names) (s_types S)
          || existsb (fun d => mem_bytes (dd_name d) (map dd_name base_public_directives)) (s_directives S)
       then [#"builtin-redeclared"] else [])
